@@ -2068,7 +2068,7 @@ impl Engine for SchedX {
             ),
             "C20" => (
                 vec!["O1", "O2", "O2x3", "O3", "O4", "L1", "L2", "L3", "L4", "L5", "P1", "P1k"],
-                "schedx: O1 two threads open one existing directory concurrently; O2 / O2x3 two / three threads open one non-existent directory (creation race) with different options; O3 a live handle ∥ a second opener that retries after the first is dropped; O4 a holder that drops ∥ two openers (three-party hand-over). L1 / L2 (rollback off / on; one fixed order of events, bounds do not apply): a commit on a full 4-bucket table that fails with bucket exhaustion while the value store has ≈60 pages to write, executed with every sync-pipeline task held back until somebody waits for it (a task nobody joins runs as late as possible); the handle is dropped, a second handle is opened, and every mutating or syncing file operation recorded after that open returned must come from the opening thread — 'all background writers of the old handle have finished'; the second handle shows the state before the failed commit and commits. L3: a commit whose hash-table write-out fails at its first page (injected) while ≈40 more page writes are queued on a slow device (2 ms per write): after drop and second open no page write of the old handle may be performed. L5: three commit workers, a commit rewriting ≈300 value leaves whose first leaf-page write fails (the leaf stage returns with the first failed worker's error while the other workers are still at work), slow device, racing opener: again no page write of the old handle after the second open. L4: sessions with warm-up abandoned without finish, handle dropped: the directory must become openable again within 8 s. P1 / P1k: the holder is ANOTHER PROCESS (a child running the same binary): while it is idle every open from this process (same and different options) must fail and leave every file byte-identical; while it is in the middle of a slow commit opens must still fail; after it is killed with SIGKILL — idle after an acknowledged commit (P1) or in the middle of the commit (P1k) — the directory must open at once and hold the last acknowledged state (P1k: that or the interrupted commit's) and accept a commit. Process death at every file operation: for 12 (thorough: all) explicit histories of C03 the last operation is re-run in a child process that aborts right before its k-th file operation, for every k; the directory must open at once in this process and the new handle must commit. Every schedule of the open/create/lock/drop points (emptiness check, lock acquisition, creation of meta / hash table / value files, flock try and unlock, I/O-pool shutdown) with ≤c preemptions, c = 0,1,2 (thorough 3). Oracle: never two handles alive at once; a refused open returns an error and leaves every file byte-identical (holder idle); every successful opener's handle commits and reads back; whenever some opener succeeded, the directory afterwards opens and holds the last committed state (no racing opener may wipe or re-initialise it).",
+                "schedx: O1 two threads open one existing directory concurrently; O2 / O2x3 two / three threads open one non-existent directory (creation race) with different options; O3 a live handle ∥ a second opener that retries after the first is dropped; O4 a holder that drops ∥ two openers (three-party hand-over). L1 / L2 (rollback off / on; one fixed order of events, bounds do not apply): a commit on a full 4-bucket table that fails with bucket exhaustion while the value store has ≈60 pages to write, executed with every sync-pipeline task held back until somebody waits for it (a task nobody joins runs as late as possible); the handle is dropped, a second handle is opened, and every mutating or syncing file operation recorded after that open returned must come from the opening thread — 'all background writers of the old handle have finished'; the second handle shows the state before the failed commit and commits. L3: a commit whose hash-table write-out fails at its first page (injected) while ≈40 more page writes are queued on a slow device (2 ms per write): after drop and second open no page write of the old handle may be performed. L5: three commit workers, a commit rewriting ≈300 value leaves whose first leaf-page write fails (the leaf stage returns with the first failed worker's error while the other workers are still at work), slow device, racing opener: again no page write of the old handle after the second open. L4: sessions with warm-up abandoned without finish, handle dropped: the directory must become openable again within 8 s. P1 / P1k: the holder is ANOTHER PROCESS (a child running the same binary, which itself has spawned a child — `sleep` — that outlives it, so that descriptors the store leaves inheritable survive the holder): while it is idle every open from this process (same and different options) must fail and leave every file byte-identical; while it is in the middle of a slow commit opens must still fail; after it is killed with SIGKILL — idle after an acknowledged commit (P1) or in the middle of the commit (P1k) — the directory must open at once and hold the last acknowledged state (P1k: that or the interrupted commit's) and accept a commit. Process death at every file operation: for 12 (thorough: all) explicit histories of C03 the last operation is re-run in a child process that aborts right before its k-th file operation, for every k; the directory must open at once in this process and the new handle must commit. Every schedule of the open/create/lock/drop points (emptiness check, lock acquisition, creation of meta / hash table / value files, flock try and unlock, I/O-pool shutdown) with ≤c preemptions, c = 0,1,2 (thorough 3). Oracle: never two handles alive at once; a refused open returns an error and leaves every file byte-identical (holder idle); every successful opener's handle commits and reads back; whenever some opener succeeded, the directory afterwards opens and holds the last committed state (no racing opener may wipe or re-initialise it).",
             ),
             _ => panic!("schedx has no plan for {prop}"),
         };
@@ -2133,6 +2133,14 @@ pub fn holder_main(dir: &str) -> i32 {
         println!("COMMIT-FAILED");
         return 3;
     }
+    // the holder has a child process of its own that outlives it (whatever descriptors the store
+    // leaves inheritable go with it): the death of the holder alone must release the directory
+    let _ = std::process::Command::new("sleep")
+        .arg("20")
+        .stdin(std::process::Stdio::null())
+        .stdout(std::process::Stdio::null())
+        .stderr(std::process::Stdio::null())
+        .spawn();
     println!("READY");
     for l in std::io::stdin().lock().lines().flatten() {
         if l == "commit" {
